@@ -324,31 +324,7 @@ def ret_defs(f):
     return out
 
 
-def resolve_owner(f, operand, want_mut=False, depth=0):
-    """For `&x` / `&mut x` / reborrow chains return the local x that is borrowed."""
-    p = core.op_place(operand)
-    if p is None or depth > 20:
-        return None
-    l = p["local"]
-    ds = [d for d in f.defs_of(l) if not f.blocks[d[0]]["cleanup"]]
-    if len(ds) != 1 or ds[0][1] == "term":
-        return l if not p["proj"] else None
-    d = ds[0][2]
-    if d["k"] != "assign":
-        return None
-    rv = d["rv"]
-    if rv["k"] == "ref":
-        if want_mut and rv["bk"] != "mut":
-            return None
-        pl = rv["place"]
-        if not pl["proj"]:
-            return pl["local"]
-        if len(pl["proj"]) == 1 and pl["proj"][0]["k"] == "deref":
-            return resolve_owner(f, {"k": "copy", "place": {"local": pl["local"], "proj": []}}, want_mut, depth + 1)
-        return None
-    if rv["k"] == "use":
-        return resolve_owner(f, rv["op"], want_mut, depth + 1)
-    return None
+resolve_owner = flow.resolve_owner
 
 
 def self_adt(f):
